@@ -1,6 +1,1325 @@
-pub fn gen(_seed: u64, _thorough: bool) -> Vec<String> {
-    vec![]
+//! C13 — BC encoding keeps representable content and emits portable blocks.
+//!
+//! Case line (space separated):
+//!   `<class> <fmt> <q> <m> <d> <w> <h> <inprec> <inhex> <wit> <ok3> <blocks>`
+//!   class   input class (grey, rand1, two, grad, noise, alpha, edge, ...); only `two` changes the oracle
+//!   fmt     bc1 bc2 bc2p bc3 bc3p rxgb bc3n bc4u bc4s bc5u bc5s bc7
+//!   q m d   quality F|N|H|U, metric U|P, dithering N|C|A|B
+//!   w h     image size in pixels; inprec = rgba8|rgba16|rgba32|rgb8|gray8; inhex = the image bytes
+//!   wit     `-` or, for class `two`, one witness block per image block (hex): a valid block of the
+//!           format whose palette contains the colours of the corresponding image block
+//!   ok3     bc1: 4 hex digits per block = mask of the pixels where index 3 of the three-colour
+//!           mode is admissible (input pixel transparent, or outside the image); else `-`
+//!   blocks  hex of the blocks `dds::encode` emitted when the line was generated (the generator runs
+//!           the encoder).  The Lean driver decodes THESE with the proved decoder model and evaluates
+//!           `Portable`; `run` does the same with `dds::decode` / Rust code (result line), and
+//!           independently re-encodes the input and evaluates the property's clauses on the fresh
+//!           blocks (oracle lines).
+//!
+//! Result line: `ok <n> <shape> <portable> <hashes>` (shape: per block mode digits, see `shape`).
+use crate::common::{toks, Rng};
+use dds::{
+    decode, encode, Channels, ColorFormat, CompressionQuality, DecodeOptions, Dithering, EncodeOptions,
+    ErrorMetric, Format, ImageView, ImageViewMut, Precision, Size,
+};
+use rayon::prelude::*;
+
+// ---------------------------------------------------------------------------------------------
+// Quantisation step bounds of the property, in decoded 8-bit units; mirrored (and justified by theorems)
+// in lean/DdsModel/DdsModel/Enc13.lean.  "Within the endpoint quantisation step" is read on DECODED values:
+// the bound of a channel is the largest difference between the decoded 8-bit values of two adjacent
+// endpoint levels (255/31 = 8.23 shows as 8 or 9 after rounding both levels to 8 bit).
+/// 5-bit endpoint channel (BC1/2/3 red, blue): max gap of n5::n8 = 9
+pub const STEP5: f64 = 9.0;
+/// 6-bit endpoint channel (green): max gap of n6::n8 = 5
+pub const STEP6: f64 = 5.0;
+/// BC2 explicit 4-bit alpha: 255/15
+pub const STEP4: f64 = 17.0;
+/// 8-bit UNORM endpoints (BC4/BC5 UNORM, BC3 alpha): adjacent levels differ by 1
+pub const STEP8U: f64 = 1.0;
+/// 8-bit SNORM endpoints shown at 8 bit (255 levels on 256 values: 126 -> 128 is a gap of 2)
+pub const STEP8S: f64 = 2.0;
+/// BC7 colour: coarsest endpoint grid of any mode (mode 0: 4 bits + p-bit = 5 bits, bit replication): 9
+pub const STEP7C: f64 = 9.0;
+/// BC7 alpha: coarsest alpha endpoint grid (mode 4: 6 bits; mode 7: 5 bits + p-bit): 5
+pub const STEP7A: f64 = 5.0;
+
+#[derive(Clone, Copy, PartialEq, Eq, Debug)]
+pub enum F {
+    Bc1,
+    Bc2,
+    Bc2p,
+    Bc3,
+    Bc3p,
+    Rxgb,
+    Bc3n,
+    Bc4u,
+    Bc4s,
+    Bc5u,
+    Bc5s,
+    Bc7,
 }
-pub fn run(_line: &str) -> Option<(String, Vec<String>)> {
-    None
+pub const ALL: [F; 12] =
+    [F::Bc1, F::Bc2, F::Bc2p, F::Bc3, F::Bc3p, F::Rxgb, F::Bc3n, F::Bc4u, F::Bc4s, F::Bc5u, F::Bc5s, F::Bc7];
+impl F {
+    fn name(self) -> &'static str {
+        match self {
+            F::Bc1 => "bc1",
+            F::Bc2 => "bc2",
+            F::Bc2p => "bc2p",
+            F::Bc3 => "bc3",
+            F::Bc3p => "bc3p",
+            F::Rxgb => "rxgb",
+            F::Bc3n => "bc3n",
+            F::Bc4u => "bc4u",
+            F::Bc4s => "bc4s",
+            F::Bc5u => "bc5u",
+            F::Bc5s => "bc5s",
+            F::Bc7 => "bc7",
+        }
+    }
+    fn parse(s: &str) -> Option<F> {
+        ALL.iter().copied().find(|f| f.name() == s)
+    }
+    fn format(self) -> Format {
+        match self {
+            F::Bc1 => Format::BC1_UNORM,
+            F::Bc2 => Format::BC2_UNORM,
+            F::Bc2p => Format::BC2_UNORM_PREMULTIPLIED_ALPHA,
+            F::Bc3 => Format::BC3_UNORM,
+            F::Bc3p => Format::BC3_UNORM_PREMULTIPLIED_ALPHA,
+            F::Rxgb => Format::BC3_UNORM_RXGB,
+            F::Bc3n => Format::BC3_UNORM_NORMAL,
+            F::Bc4u => Format::BC4_UNORM,
+            F::Bc4s => Format::BC4_SNORM,
+            F::Bc5u => Format::BC5_UNORM,
+            F::Bc5s => Format::BC5_SNORM,
+            F::Bc7 => Format::BC7_UNORM,
+        }
+    }
+    fn bpb(self) -> usize {
+        match self {
+            F::Bc1 | F::Bc4u | F::Bc4s => 8,
+            _ => 16,
+        }
+    }
+    /// native channel count of the decoder
+    fn nch(self) -> usize {
+        match self {
+            F::Bc4u | F::Bc4s => 1,
+            F::Rxgb | F::Bc3n | F::Bc5u | F::Bc5s => 3,
+            _ => 4,
+        }
+    }
+    fn channels(self) -> Channels {
+        match self.nch() {
+            1 => Channels::Grayscale,
+            3 => Channels::Rgb,
+            _ => Channels::Rgba,
+        }
+    }
+    /// the format whose decoder shows the STORED values (no un-premultiplication)
+    fn stored(self) -> F {
+        match self {
+            F::Bc2p => F::Bc2,
+            F::Bc3p => F::Bc3,
+            f => f,
+        }
+    }
+    fn has_565(self) -> bool {
+        matches!(self, F::Bc1 | F::Bc2 | F::Bc2p | F::Bc3 | F::Bc3p | F::Rxgb | F::Bc3n)
+    }
+}
+
+#[derive(Clone, Copy, PartialEq, Eq, Debug)]
+pub struct Opts {
+    q: char,
+    m: char,
+    d: char,
+}
+impl Opts {
+    fn enc(self) -> Option<EncodeOptions> {
+        let mut o = EncodeOptions::default();
+        o.parallel = false;
+        o.quality = match self.q {
+            'F' => CompressionQuality::Fast,
+            'N' => CompressionQuality::Normal,
+            'H' => CompressionQuality::High,
+            'U' => CompressionQuality::Unreasonable,
+            _ => return None,
+        };
+        o.error_metric = match self.m {
+            'U' => ErrorMetric::Uniform,
+            'P' => ErrorMetric::Perceptual,
+            _ => return None,
+        };
+        o.dithering = match self.d {
+            'N' => Dithering::None,
+            'C' => Dithering::Color,
+            'A' => Dithering::Alpha,
+            'B' => Dithering::ColorAndAlpha,
+            _ => return None,
+        };
+        Some(o)
+    }
+    fn dith_color(self) -> bool {
+        self.d == 'C' || self.d == 'B'
+    }
+    fn dith_alpha(self) -> bool {
+        self.d == 'A' || self.d == 'B'
+    }
+}
+
+// ---------------------------------------------------------------------------------------------
+// input images
+
+#[derive(Clone, Copy, PartialEq, Eq, Debug)]
+pub enum InPrec {
+    Rgba8,
+    Rgba16,
+    Rgba32,
+    Rgb8,
+    Gray8,
+}
+impl InPrec {
+    fn name(self) -> &'static str {
+        match self {
+            InPrec::Rgba8 => "rgba8",
+            InPrec::Rgba16 => "rgba16",
+            InPrec::Rgba32 => "rgba32",
+            InPrec::Rgb8 => "rgb8",
+            InPrec::Gray8 => "gray8",
+        }
+    }
+    fn parse(s: &str) -> Option<Self> {
+        [InPrec::Rgba8, InPrec::Rgba16, InPrec::Rgba32, InPrec::Rgb8, InPrec::Gray8]
+            .into_iter()
+            .find(|p| p.name() == s)
+    }
+    fn color(self) -> ColorFormat {
+        match self {
+            InPrec::Rgba8 => ColorFormat::new(Channels::Rgba, Precision::U8),
+            InPrec::Rgba16 => ColorFormat::new(Channels::Rgba, Precision::U16),
+            InPrec::Rgba32 => ColorFormat::new(Channels::Rgba, Precision::F32),
+            InPrec::Rgb8 => ColorFormat::new(Channels::Rgb, Precision::U8),
+            InPrec::Gray8 => ColorFormat::new(Channels::Grayscale, Precision::U8),
+        }
+    }
+    fn bpp(self) -> usize {
+        match self {
+            InPrec::Rgba8 => 4,
+            InPrec::Rgba16 => 8,
+            InPrec::Rgba32 => 16,
+            InPrec::Rgb8 => 3,
+            InPrec::Gray8 => 1,
+        }
+    }
+}
+
+#[derive(Clone, Debug)]
+pub struct Img {
+    w: usize,
+    h: usize,
+    prec: InPrec,
+    data: Vec<u8>,
+}
+impl Img {
+    fn from_rgba8(w: usize, h: usize, px: &[[u8; 4]]) -> Img {
+        let mut data = Vec::with_capacity(w * h * 4);
+        for p in px {
+            data.extend_from_slice(p);
+        }
+        Img { w, h, prec: InPrec::Rgba8, data }
+    }
+    /// same content in another input precision (exact widening; rgb8/gray8 drop channels)
+    fn convert(&self, prec: InPrec) -> Img {
+        assert!(self.prec == InPrec::Rgba8);
+        let mut data = Vec::new();
+        for p in self.data.chunks(4) {
+            match prec {
+                InPrec::Rgba8 => data.extend_from_slice(p),
+                InPrec::Rgba16 => p.iter().for_each(|&v| data.extend_from_slice(&(v as u16 * 257).to_le_bytes())),
+                InPrec::Rgba32 => p.iter().for_each(|&v| data.extend_from_slice(&(v as f32 / 255.0).to_le_bytes())),
+                InPrec::Rgb8 => data.extend_from_slice(&p[..3]),
+                InPrec::Gray8 => data.push(p[0]),
+            }
+        }
+        Img { w: self.w, h: self.h, prec, data }
+    }
+    /// RGBA of a pixel on the 0..=255 scale (real)
+    fn px(&self, x: usize, y: usize) -> [f64; 4] {
+        let o = (y * self.w + x) * self.prec.bpp();
+        let d = &self.data[o..o + self.prec.bpp()];
+        match self.prec {
+            InPrec::Rgba8 => [d[0] as f64, d[1] as f64, d[2] as f64, d[3] as f64],
+            InPrec::Rgba16 => {
+                let v = |i: usize| u16::from_le_bytes([d[2 * i], d[2 * i + 1]]) as f64 / 257.0;
+                [v(0), v(1), v(2), v(3)]
+            }
+            InPrec::Rgba32 => {
+                let v = |i: usize| {
+                    let f = f32::from_le_bytes([d[4 * i], d[4 * i + 1], d[4 * i + 2], d[4 * i + 3]]) as f64;
+                    // the encoders clamp to [0, 1]
+                    f.max(0.0).min(1.0) * 255.0
+                };
+                [v(0), v(1), v(2), v(3)]
+            }
+            InPrec::Rgb8 => [d[0] as f64, d[1] as f64, d[2] as f64, 255.0],
+            InPrec::Gray8 => [d[0] as f64, d[0] as f64, d[0] as f64, 255.0],
+        }
+    }
+    /// alpha of a pixel is below one half
+    fn transparent(&self, x: usize, y: usize) -> bool {
+        self.px(x, y)[3] < 127.5
+    }
+    fn blocks_w(&self) -> usize {
+        (self.w + 3) / 4
+    }
+    fn blocks_h(&self) -> usize {
+        (self.h + 3) / 4
+    }
+}
+
+fn hex_encode(b: &[u8]) -> String {
+    let mut s = String::with_capacity(b.len() * 2);
+    for x in b {
+        s.push_str(&format!("{:02x}", x));
+    }
+    s
+}
+fn hex_decode(s: &str) -> Option<Vec<u8>> {
+    if s.len() % 2 != 0 {
+        return None;
+    }
+    let b = s.as_bytes();
+    let d = |c: u8| -> Option<u8> {
+        match c {
+            b'0'..=b'9' => Some(c - b'0'),
+            b'a'..=b'f' => Some(c - b'a' + 10),
+            _ => None,
+        }
+    };
+    let mut out = Vec::with_capacity(b.len() / 2);
+    for i in (0..b.len()).step_by(2) {
+        out.push(d(b[i])? * 16 + d(b[i + 1])?);
+    }
+    Some(out)
+}
+
+// ---------------------------------------------------------------------------------------------
+// library calls
+
+fn lib_encode(f: F, o: Opts, img: &Img) -> Result<Vec<u8>, String> {
+    let opts = o.enc().ok_or("opts")?;
+    let view = ImageView::new(&img.data, Size::new(img.w as u32, img.h as u32), img.prec.color()).ok_or("view")?;
+    let mut out = Vec::new();
+    encode(&mut out, view, f.format(), None, &opts).map_err(|e| format!("{e:?}"))?;
+    let want = img.blocks_w() * img.blocks_h() * f.bpb();
+    if out.len() != want {
+        return Err(format!("encoded-len {} want {}", out.len(), want));
+    }
+    Ok(out)
+}
+
+/// decode `n` blocks laid out `wb` blocks per row at U8 in the native channels; result per block: 16 pixels x nch
+fn lib_decode(f: F, wb: usize, data: &[u8]) -> Result<Vec<Vec<u8>>, String> {
+    let n = data.len() / f.bpb();
+    if n == 0 || wb == 0 || n % wb != 0 {
+        return Err("shape".into());
+    }
+    let hb = n / wb;
+    let (w, h) = (4 * wb, 4 * hb);
+    let nch = f.nch();
+    let color = ColorFormat::new(f.channels(), Precision::U8);
+    let mut out = vec![0xA5u8; w * h * nch];
+    let view = ImageViewMut::new(&mut out, Size::new(w as u32, h as u32), color).ok_or("view")?;
+    let mut reader: &[u8] = data;
+    decode(&mut reader, view, f.format(), &DecodeOptions::default()).map_err(|e| format!("{e:?}"))?;
+    let mut res = Vec::with_capacity(n);
+    for b in 0..n {
+        let (bx, by) = (b % wb, b / wb);
+        let mut v = Vec::with_capacity(16 * nch);
+        for i in 0..16 {
+            let (x, y) = (bx * 4 + i % 4, by * 4 + i / 4);
+            v.extend_from_slice(&out[(y * w + x) * nch..(y * w + x + 1) * nch]);
+        }
+        res.push(v);
+    }
+    Ok(res)
+}
+
+// ---------------------------------------------------------------------------------------------
+// reference decoder at 8 bit, written from the format specification (BC1-BC5; exact rational
+// interpolation, nearest 8-bit value, exact ties upward)
+
+fn rnd(num: u64, den: u64) -> u8 {
+    ((2 * num + den) / (2 * den)) as u8
+}
+fn idx2(b: &[u8], p: usize) -> usize {
+    ((u32::from_le_bytes([b[4], b[5], b[6], b[7]]) >> (2 * p)) & 3) as usize
+}
+fn idx3(b: &[u8], p: usize) -> usize {
+    let mut w: u64 = 0;
+    for i in 0..6 {
+        w |= (b[2 + i] as u64) << (8 * i);
+    }
+    ((w >> (3 * p)) & 7) as usize
+}
+/// colour block `b` (8 bytes): RGBA of pixel p; `bc1`: mode by endpoint order, else always four colours
+fn ref_color(b: &[u8], p: usize, bc1: bool) -> [u8; 4] {
+    let c0 = u16::from_le_bytes([b[0], b[1]]) as u64;
+    let c1 = u16::from_le_bytes([b[2], b[3]]) as u64;
+    let four = !bc1 || c0 > c1;
+    let k = idx2(b, p);
+    let ch = |e0: u64, e1: u64, m: u64| -> u8 {
+        match (k, four) {
+            (0, _) => rnd(255 * e0, m),
+            (1, _) => rnd(255 * e1, m),
+            (2, true) => rnd(255 * (2 * e0 + e1), 3 * m),
+            (2, false) => rnd(255 * (e0 + e1), 2 * m),
+            (_, true) => rnd(255 * (e0 + 2 * e1), 3 * m),
+            (_, false) => 0,
+        }
+    };
+    [
+        ch(c0 >> 11, c1 >> 11, 31),
+        ch((c0 >> 5) & 63, (c1 >> 5) & 63, 63),
+        ch(c0 & 31, c1 & 31, 31),
+        if !four && k == 3 { 0 } else { 255 },
+    ]
+}
+/// BC4 block `b` (8 bytes), pixel p, 8-bit value
+fn ref_bc4(b: &[u8], p: usize, signed: bool) -> u8 {
+    let k = idx3(b, p) as u64;
+    let (e0, e1, m, six) = if signed {
+        let s = |x: u8| -> i64 { (x as i8 as i64).max(-127) + 127 };
+        (s(b[0]) as u64, s(b[1]) as u64, 254u64, (b[0] as i8) > (b[1] as i8))
+    } else {
+        (b[0] as u64, b[1] as u64, 255u64, b[0] > b[1])
+    };
+    match k {
+        0 => rnd(255 * e0, m),
+        1 => rnd(255 * e1, m),
+        _ if six => rnd(255 * ((8 - k) * e0 + (k - 1) * e1), 7 * m),
+        6 => 0,
+        7 => 255,
+        _ => rnd(255 * ((6 - k) * e0 + (k - 1) * e1), 5 * m),
+    }
+}
+fn ref_bc2_alpha(b: &[u8], p: usize) -> u8 {
+    let byte = b[p / 2];
+    let n = if p % 2 == 0 { byte & 15 } else { byte >> 4 };
+    n * 17
+}
+fn straight(c: u8, a: u8) -> u8 {
+    if a == 0 {
+        c
+    } else {
+        ((c as u32 * 255 / a as u32).min(255)) as u8
+    }
+}
+/// 16 pixels x nch; `None` where the reference does not define the value (BC7; B of BC3n)
+fn ref_decode(f: F, b: &[u8]) -> Option<Vec<Option<u8>>> {
+    let mut v = Vec::with_capacity(64);
+    for p in 0..16 {
+        match f {
+            F::Bc1 => v.extend(ref_color(b, p, true).map(Some)),
+            F::Bc2 | F::Bc2p | F::Bc3 | F::Bc3p => {
+                let c = ref_color(&b[8..], p, false);
+                let a = if matches!(f, F::Bc2 | F::Bc2p) { ref_bc2_alpha(b, p) } else { ref_bc4(b, p, false) };
+                if matches!(f, F::Bc2p | F::Bc3p) {
+                    v.extend([straight(c[0], a), straight(c[1], a), straight(c[2], a), a].map(Some));
+                } else {
+                    v.extend([c[0], c[1], c[2], a].map(Some));
+                }
+            }
+            F::Rxgb => {
+                let c = ref_color(&b[8..], p, false);
+                v.extend([ref_bc4(b, p, false), c[1], c[2]].map(Some));
+            }
+            F::Bc3n => {
+                let c = ref_color(&b[8..], p, false);
+                v.extend([Some(ref_bc4(b, p, false)), Some(c[1]), None]);
+            }
+            F::Bc4u => v.push(Some(ref_bc4(b, p, false))),
+            F::Bc4s => v.push(Some(ref_bc4(b, p, true))),
+            F::Bc5u => v.extend([ref_bc4(b, p, false), ref_bc4(&b[8..], p, false), 0].map(Some)),
+            F::Bc5s => v.extend([ref_bc4(b, p, true), ref_bc4(&b[8..], p, true), 128].map(Some)),
+            F::Bc7 => return None,
+        }
+    }
+    Some(v)
+}
+
+// ---------------------------------------------------------------------------------------------
+// block shape and the emitted-block predicate (Rust side; the Lean side is Enc13.lean `Portable`)
+
+fn color_shape(b: &[u8]) -> u8 {
+    let c0 = u16::from_le_bytes([b[0], b[1]]);
+    let c1 = u16::from_le_bytes([b[2], b[3]]);
+    let uses3 = (0..16).any(|p| idx2(b, p) == 3);
+    (c0 > c1) as u8 + 2 * uses3 as u8 + 4 * (c0 == c1) as u8
+}
+fn bc4_shape(b: &[u8], signed: bool) -> u8 {
+    let six = if signed { (b[0] as i8) > (b[1] as i8) } else { b[0] > b[1] };
+    let uses67 = (0..16).any(|p| idx3(b, p) >= 6);
+    six as u8 + 2 * uses67 as u8 + 4 * (b[0] == b[1]) as u8
+}
+/// mode digits of one block
+fn shape(f: F, b: &[u8]) -> String {
+    match f {
+        F::Bc1 => format!("{}", color_shape(b)),
+        F::Bc2 | F::Bc2p => format!("{}", color_shape(&b[8..])),
+        F::Bc3 | F::Bc3p | F::Rxgb | F::Bc3n => format!("{}{}", color_shape(&b[8..]), bc4_shape(b, false)),
+        F::Bc4u => format!("{}", bc4_shape(b, false)),
+        F::Bc4s => format!("{}", bc4_shape(b, true)),
+        F::Bc5u => format!("{}{}", bc4_shape(b, false), bc4_shape(&b[8..], false)),
+        F::Bc5s => format!("{}{}", bc4_shape(b, true), bc4_shape(&b[8..], true)),
+        F::Bc7 => format!("{}", b[0].trailing_zeros()),
+    }
+}
+/// the emitted-block predicate of the property; `ok3`: pixels where index 3 of BC1's three-colour mode may be used
+fn portable(f: F, b: &[u8], ok3: u16) -> bool {
+    match f {
+        F::Bc1 => {
+            let c0 = u16::from_le_bytes([b[0], b[1]]);
+            let c1 = u16::from_le_bytes([b[2], b[3]]);
+            c0 > c1 || (0..16).all(|p| idx2(b, p) != 3 || (ok3 >> p) & 1 == 1)
+        }
+        F::Bc2 | F::Bc2p | F::Bc3 | F::Bc3p | F::Rxgb | F::Bc3n => {
+            let c0 = u16::from_le_bytes([b[8], b[9]]);
+            let c1 = u16::from_le_bytes([b[10], b[11]]);
+            c0 > c1
+        }
+        F::Bc4u | F::Bc4s | F::Bc5u | F::Bc5s => true,
+        // the reserved mode (first byte 0) is the only unspecified BC7 block
+        F::Bc7 => b[0] != 0,
+    }
+}
+
+/// pixels (bit p) of block (bx, by) that lie inside the image
+fn in_image_mask(img: &Img, bx: usize, by: usize) -> u16 {
+    let mut m = 0u16;
+    for p in 0..16 {
+        if bx * 4 + p % 4 < img.w && by * 4 + p / 4 < img.h {
+            m |= 1 << p;
+        }
+    }
+    m
+}
+/// `ok3` of one block: outside the image, or the input pixel is transparent (alpha < 1/2).  With alpha
+/// dithering the per-pixel decision is the dither's, so only a block whose in-image pixels are all
+/// opaque forbids index 3.
+fn ok3_mask(img: &Img, o: Opts, bx: usize, by: usize) -> u16 {
+    let inside = in_image_mask(img, bx, by);
+    let mut transp = 0u16;
+    for p in 0..16 {
+        if (inside >> p) & 1 == 1 && img.transparent(bx * 4 + p % 4, by * 4 + p / 4) {
+            transp |= 1 << p;
+        }
+    }
+    if o.dith_alpha() {
+        let all_opaque = (0..16).all(|p| (inside >> p) & 1 == 0 || img.px(bx * 4 + p % 4, by * 4 + p / 4)[3] >= 255.0);
+        if all_opaque {
+            !inside
+        } else {
+            0xFFFF
+        }
+    } else {
+        !inside | transp
+    }
+}
+
+pub fn hash_block(vals: &[u8]) -> u32 {
+    let mut h: u32 = 0x811C_9DC5;
+    for &v in vals {
+        h = (h ^ v as u32).wrapping_mul(16777619);
+        h ^= h >> 15;
+    }
+    h
+}
+
+// ---------------------------------------------------------------------------------------------
+// the property's clauses on freshly emitted blocks
+
+#[derive(Clone, Copy, PartialEq, Debug)]
+enum Kind {
+    Step(f64),
+    /// a BC4-type channel: exact for single-value blocks
+    Exact,
+    Bc7c,
+    Bc7a,
+}
+/// (decoded channel, input channel, premultiply by alpha?, kind, group) — channels of one group share endpoints
+fn checks(f: F) -> Vec<(usize, usize, bool, Kind, u8)> {
+    let col = |pm: bool| vec![(0, 0, pm, Kind::Step(STEP5), 0u8), (1, 1, pm, Kind::Step(STEP6), 0), (2, 2, pm, Kind::Step(STEP5), 0)];
+    match f {
+        F::Bc1 => col(false),
+        F::Bc2 => [col(false), vec![(3, 3, false, Kind::Step(STEP4), 1)]].concat(),
+        F::Bc2p => [col(true), vec![(3, 3, false, Kind::Step(STEP4), 1)]].concat(),
+        F::Bc3 => [col(false), vec![(3, 3, false, Kind::Exact, 1)]].concat(),
+        F::Bc3p => [col(true), vec![(3, 3, false, Kind::Exact, 1)]].concat(),
+        F::Rxgb => vec![(0, 0, false, Kind::Exact, 1), (1, 1, false, Kind::Step(STEP6), 0), (2, 2, false, Kind::Step(STEP5), 0)],
+        F::Bc3n => vec![(0, 0, false, Kind::Exact, 1), (1, 1, false, Kind::Step(STEP6), 0)],
+        F::Bc4u | F::Bc4s => vec![(0, 0, false, Kind::Exact, 0)],
+        F::Bc5u | F::Bc5s => vec![(0, 0, false, Kind::Exact, 0), (1, 1, false, Kind::Exact, 1)],
+        F::Bc7 => vec![(0, 0, false, Kind::Bc7c, 0), (1, 1, false, Kind::Bc7c, 0), (2, 2, false, Kind::Bc7c, 0), (3, 3, false, Kind::Bc7a, 0)],
+    }
+}
+
+fn src_val(px: [f64; 4], ch: usize, premul: bool) -> f64 {
+    if premul {
+        px[ch] * px[3] / 255.0
+    } else {
+        px[ch]
+    }
+}
+
+/// evaluate the property on the blocks `enc` emitted for `img`; `wit`: witness blocks (class two)
+fn oracle(f: F, o: Opts, img: &Img, enc: &[u8], wit: Option<&[u8]>, msgs: &mut Vec<String>) {
+    let (wb, hb) = (img.blocks_w(), img.blocks_h());
+    let bpb = f.bpb();
+    let nch = f.nch();
+    let tag = format!("fmt={} q={} m={} d={}", f.name(), o.q, o.m, o.d);
+    let dec = match lib_decode(f, wb, enc) {
+        Ok(d) => d,
+        Err(e) => {
+            msgs.push(format!("decode-failed: {tag} {e}"));
+            return;
+        }
+    };
+    // stored-space view for the premultiplied formats
+    let dec_stored = if f.stored() != f {
+        match lib_decode(f.stored(), wb, enc) {
+            Ok(d) => d,
+            Err(e) => {
+                msgs.push(format!("decode-failed: {tag} stored {e}"));
+                return;
+            }
+        }
+    } else {
+        dec.clone()
+    };
+    let wit_dec = wit.and_then(|w| lib_decode(f.stored(), wb, w).ok());
+    for b in 0..wb * hb {
+        let (bx, by) = (b % wb, b / wb);
+        let blk = &enc[b * bpb..(b + 1) * bpb];
+        let hex = hex_encode(blk);
+        let inside = in_image_mask(img, bx, by);
+        let pix: Vec<usize> = (0..16).filter(|p| (inside >> p) & 1 == 1).collect();
+        let inpx = |p: usize| img.px(bx * 4 + p % 4, by * 4 + p / 4);
+
+        // --- portability
+        let ok3 = ok3_mask(img, o, bx, by);
+        if !portable(f, blk, ok3) {
+            msgs.push(format!("not-portable: {tag} block={b} ok3={ok3:04x} blk={hex}"));
+        }
+
+        // --- library decoder against the reference decoder written from the specification
+        if let Some(r) = ref_decode(f, blk) {
+            for (i, want) in r.iter().enumerate() {
+                if let Some(wv) = want {
+                    if *wv != dec[b][i] {
+                        msgs.push(format!(
+                            "decode-mismatch-ref: {tag} block={b} px={} ch={} lib={} ref={} blk={hex}",
+                            i / nch, i % nch, dec[b][i], wv
+                        ));
+                        break;
+                    }
+                }
+            }
+        }
+
+        // --- opaque stays opaque (alpha-carrying formats), BC1 alpha threshold
+        let alpha_ch = match f {
+            F::Bc1 | F::Bc2 | F::Bc2p | F::Bc3 | F::Bc3p | F::Bc7 => Some(3usize),
+            _ => None,
+        };
+        if let Some(ac) = alpha_ch {
+            let all_opaque = pix.iter().all(|&p| inpx(p)[3] >= 255.0);
+            if all_opaque {
+                for &p in &pix {
+                    if dec[b][p * nch + ac] != 255 {
+                        msgs.push(format!("opaque-lost: {tag} block={b} px={p} alpha={} blk={hex}", dec[b][p * nch + ac]));
+                        break;
+                    }
+                }
+            }
+        }
+        if f == F::Bc1 {
+            let all_transp = pix.iter().all(|&p| inpx(p)[3] <= 0.0);
+            for &p in &pix {
+                let a_in = inpx(p)[3];
+                let a_dec = dec[b][p * nch + 3];
+                let want: Option<u8> = if !o.dith_alpha() {
+                    Some(if a_in < 127.5 { 0 } else { 255 })
+                } else if all_transp {
+                    Some(0)
+                } else {
+                    None // all-opaque blocks are covered by opaque-lost; mixed blocks are the dither's decision
+                };
+                if let Some(wa) = want {
+                    if a_dec != wa {
+                        msgs.push(format!(
+                            "bc1-alpha-threshold: {tag} block={b} px={p} alpha_in={a_in} alpha_dec={a_dec} want={wa} blk={hex}"
+                        ));
+                        break;
+                    }
+                }
+            }
+        }
+
+        // --- error floors (no dithering only)
+        if o.d != 'N' {
+            continue;
+        }
+        let cks = checks(f);
+        let groups: Vec<u8> = {
+            let mut g: Vec<u8> = cks.iter().map(|c| c.4).collect();
+            g.sort();
+            g.dedup();
+            g
+        };
+        for g in groups {
+            let gc: Vec<_> = cks.iter().filter(|c| c.4 == g).collect();
+            // pixels that carry this group: BC1 colour only for opaque pixels
+            let carriers: Vec<usize> = if f == F::Bc1 {
+                pix.iter().copied().filter(|&p| inpx(p)[3] >= 127.5).collect()
+            } else {
+                pix.clone()
+            };
+            if carriers.is_empty() {
+                continue;
+            }
+            let val = |p: usize, c: &(usize, usize, bool, Kind, u8)| src_val(inpx(p), c.1, c.2);
+            let single = carriers.iter().all(|&p| gc.iter().all(|c| val(p, c) == val(carriers[0], c)));
+            // class two: every carrier pixel equals, in the channels of this group, a pixel of the witness block
+            let two = !single
+                && wit_dec.as_ref().map_or(false, |wd| {
+                    carriers.iter().all(|&p| {
+                        (0..16).any(|wp| gc.iter().all(|c| wd[b][wp * nch + c.0] as f64 == val(p, c)))
+                    })
+                });
+            if !single && !two {
+                continue;
+            }
+            let clause = if single { "single" } else { "two" };
+            for &p in &carriers {
+                for c in &gc {
+                    let want = val(p, c);
+                    let got = dec_stored[b][p * nch + c.0] as f64;
+                    let err = (got - want).abs();
+                    let integral = want.fract() == 0.0;
+                    let (bound, name) = match c.3 {
+                        Kind::Step(s) => (s, "step"),
+                        Kind::Exact => {
+                            if single {
+                                if !integral {
+                                    continue;
+                                }
+                                (0.0, "exact")
+                            } else if matches!(f, F::Bc4s | F::Bc5s) {
+                                (STEP8S, "step")
+                            } else {
+                                (STEP8U, "step")
+                            }
+                        }
+                        Kind::Bc7c => {
+                            if single {
+                                if !integral {
+                                    continue;
+                                }
+                                (0.0, "exact")
+                            } else {
+                                (STEP7C, "step")
+                            }
+                        }
+                        Kind::Bc7a => {
+                            if single {
+                                if !integral {
+                                    continue;
+                                }
+                                (0.0, "exact")
+                            } else {
+                                (STEP7A, "step")
+                            }
+                        }
+                    };
+                    if err > bound {
+                        let grid = match c.3 {
+                            Kind::Step(s) if s == STEP4 => "alpha4",
+                            Kind::Step(_) => "565",
+                            Kind::Exact => "bc4",
+                            Kind::Bc7c | Kind::Bc7a => "bc7",
+                        };
+                        msgs.push(format!(
+                            "{clause}-{name}-bound: grid={grid} {tag} block={b} px={p} ch={} in={want} dec={got} bound={bound} blk={hex}",
+                            c.0
+                        ));
+                    }
+                }
+            }
+        }
+    }
+}
+
+/// (offset, length) of the pieces of a single-colour block that the discrete encoder model predicts
+/// (availability rule only; the VALUES are the model's, compared in the tie)
+fn predicted_pieces(f: F, q: char, c: [u8; 4]) -> Vec<(usize, usize)> {
+    let corner = |e: u8| e == 0 || e == 255;
+    let bc4: Vec<(usize, usize)> = if q == 'U' { vec![] } else { vec![(0, 8)] };
+    let col = |ok: bool| -> Vec<(usize, usize)> { if ok { vec![(8, 8)] } else { vec![] } };
+    let [r, g, b, a] = c;
+    let c3 = corner(r) && corner(g) && corner(b);
+    match f {
+        F::Bc7 => vec![(0, 16)],
+        F::Bc1 => {
+            if a >= 128 && !c3 {
+                vec![]
+            } else {
+                vec![(0, 8)]
+            }
+        }
+        F::Bc2 => col(c3),
+        F::Bc2p => col(a == 255 && c3),
+        F::Bc3 => [bc4, col(c3)].concat(),
+        F::Bc3p => [bc4, col(a == 255 && c3)].concat(),
+        F::Rxgb => [bc4, col(corner(g) && corner(b))].concat(),
+        F::Bc3n => [bc4, col(corner(g))].concat(),
+        F::Bc4u => bc4,
+        F::Bc5u => {
+            if q == 'U' {
+                vec![]
+            } else {
+                vec![(0, 8), (8, 8)]
+            }
+        }
+        F::Bc4s | F::Bc5s => vec![],
+    }
+}
+
+// ---------------------------------------------------------------------------------------------
+// run
+
+struct Case {
+    class: String,
+    f: F,
+    o: Opts,
+    img: Img,
+    wit: Option<Vec<u8>>,
+    ok3: Option<Vec<u16>>,
+    blocks: Vec<u8>,
+}
+
+fn parse(line: &str) -> Option<Case> {
+    let t = toks(line);
+    if t.len() != 12 {
+        return None;
+    }
+    let f = F::parse(t[1])?;
+    let c = |s: &str| -> Option<char> {
+        if s.len() == 1 {
+            s.chars().next()
+        } else {
+            None
+        }
+    };
+    let o = Opts { q: c(t[2])?, m: c(t[3])?, d: c(t[4])? };
+    o.enc()?;
+    let w: usize = t[5].parse().ok()?;
+    let h: usize = t[6].parse().ok()?;
+    let prec = InPrec::parse(t[7])?;
+    let data = hex_decode(t[8])?;
+    if w == 0 || h == 0 || w > 64 || h > 64 || data.len() != w * h * prec.bpp() {
+        return None;
+    }
+    let img = Img { w, h, prec, data };
+    let nb = img.blocks_w() * img.blocks_h();
+    let wit = if t[9] == "-" {
+        None
+    } else {
+        let v = hex_decode(t[9])?;
+        if v.len() != nb * f.bpb() {
+            return None;
+        }
+        Some(v)
+    };
+    let ok3 = if t[10] == "-" {
+        if f == F::Bc1 {
+            return None;
+        }
+        None
+    } else {
+        let v = hex_decode(t[10])?;
+        if f != F::Bc1 || v.len() != nb * 2 {
+            return None;
+        }
+        Some(v.chunks(2).map(|c| (c[0] as u16) << 8 | c[1] as u16).collect())
+    };
+    let blocks = hex_decode(t[11])?;
+    if blocks.len() != nb * f.bpb() {
+        return None;
+    }
+    Some(Case { class: t[0].to_string(), f, o, img, wit, ok3, blocks })
+}
+
+pub fn run(line: &str) -> Option<(String, Vec<String>)> {
+    let case = match parse(line) {
+        Some(c) => c,
+        None => return Some(("bad-case".into(), vec![])),
+    };
+    let Case { class, f, o, img, wit, ok3: _, blocks } = case;
+    let mut msgs = vec![];
+    let (wb, hb) = (img.blocks_w(), img.blocks_h());
+    let nb = wb * hb;
+    let bpb = f.bpb();
+
+    // result line: the blocks of the LINE through the library decoder / the Rust predicate
+    let dec = match lib_decode(f, wb, &blocks) {
+        Ok(d) => d,
+        Err(e) => return Some((format!("err decode {e}"), vec![])),
+    };
+    let mut shapes = String::new();
+    let mut ports = String::new();
+    let mut hashes = String::new();
+    for b in 0..nb {
+        let blk = &blocks[b * bpb..(b + 1) * bpb];
+        shapes.push_str(&shape(f, blk));
+        // the mask is recomputed from the input image, not taken from the line
+        let m = ok3_mask(&img, o, b % wb, b / wb);
+        ports.push(if portable(f, blk, m) { '1' } else { '0' });
+        hashes.push_str(&format!("{:08x}", hash_block(&dec[b])));
+    }
+    // bytes of the emitted blocks at the places the discrete encoder model (Enc13.predictSingle) predicts
+    let pred = if (class == "grey" || class == "rand1" || class == "corner")
+        && img.prec == InPrec::Rgba8
+        && o.d == 'N'
+        && img.h == 4
+        && img.w == 4 * nb
+    {
+        let mut parts = vec![];
+        for b in 0..nb {
+            let c = &img.data[16 * b..16 * b + 4];
+            let pieces = predicted_pieces(f, o.q, [c[0], c[1], c[2], c[3]]);
+            if pieces.is_empty() {
+                parts.push("-".to_string());
+            } else {
+                let blk = &blocks[b * bpb..(b + 1) * bpb];
+                parts.push(pieces.iter().map(|&(off, len)| format!("{}:{}", off, hex_encode(&blk[off..off + len]))).collect::<Vec<_>>().join(","));
+            }
+        }
+        parts.join(";")
+    } else {
+        "-".to_string()
+    };
+    let res = format!("ok {nb} {shapes} {ports} {hashes} {pred}");
+
+    // oracle: fresh encode
+    match lib_encode(f, o, &img) {
+        Ok(enc) => oracle(f, o, &img, &enc, wit.as_deref(), &mut msgs),
+        Err(e) => msgs.push(format!("encode-failed: fmt={} {e}", f.name())),
+    }
+    Some((res, msgs))
+}
+
+// ---------------------------------------------------------------------------------------------
+// generator
+
+struct Spec {
+    class: &'static str,
+    f: F,
+    o: Opts,
+    img: Img,
+    wit: Option<Vec<u8>>,
+}
+
+fn line_of(s: &Spec) -> String {
+    let enc = lib_encode(s.f, s.o, &s.img).unwrap_or_default();
+    let ok3 = if s.f == F::Bc1 {
+        let mut v = vec![];
+        for b in 0..s.img.blocks_w() * s.img.blocks_h() {
+            let m = ok3_mask(&s.img, s.o, b % s.img.blocks_w(), b / s.img.blocks_w());
+            v.push((m >> 8) as u8);
+            v.push(m as u8);
+        }
+        hex_encode(&v)
+    } else {
+        "-".into()
+    };
+    format!(
+        "{} {} {} {} {} {} {} {} {} {} {} {}",
+        s.class,
+        s.f.name(),
+        s.o.q,
+        s.o.m,
+        s.o.d,
+        s.img.w,
+        s.img.h,
+        s.img.prec.name(),
+        hex_encode(&s.img.data),
+        s.wit.as_ref().map_or("-".into(), |w| hex_encode(w)),
+        ok3,
+        if enc.is_empty() { "-".into() } else { hex_encode(&enc) }
+    )
+}
+
+/// row of `n` blocks, block i filled by `fill(i, p)`
+fn block_row(n: usize, mut fill: impl FnMut(usize, usize) -> [u8; 4]) -> Img {
+    let (w, h) = (4 * n, 4);
+    let mut px = vec![[0u8; 4]; w * h];
+    for b in 0..n {
+        for p in 0..16 {
+            px[(p / 4) * w + b * 4 + p % 4] = fill(b, p);
+        }
+    }
+    Img::from_rgba8(w, h, &px)
+}
+
+fn rand_color(rng: &mut Rng) -> [u8; 4] {
+    let a = match rng.below(4) {
+        0 => 255,
+        1 => *rng.pick(&[0u8, 1, 127, 128, 254]),
+        _ => rng.below(256) as u8,
+    };
+    [rng.below(256) as u8, rng.below(256) as u8, rng.below(256) as u8, a]
+}
+
+/// a witness block of format `f` whose 16 decoded pixels use exactly two palette entries, plus the mask
+/// saying which pixel uses the second one.  BC7: a random mode 4/5/6 block; the two colours are those of
+/// pixel 0 and of another pixel of the decoded block.
+fn witness(f: F, rng: &mut Rng) -> Vec<u8> {
+    let color = |rng: &mut Rng, bc1: bool| -> Vec<u8> {
+        let (mut c0, mut c1) = (rng.next() as u16, rng.next() as u16);
+        if rng.chance(1, 4) {
+            // neighbouring endpoints
+            c1 = c0 ^ (1 << rng.below(16));
+        }
+        if !bc1 && c0 < c1 {
+            std::mem::swap(&mut c0, &mut c1);
+        }
+        let three = bc1 && c0 <= c1;
+        let n = if three { 3 } else { 4 };
+        let i = rng.below(n);
+        let mut j = rng.below(n);
+        if j == i {
+            j = (i + 1) % n;
+        }
+        let mut idx: u32 = 0;
+        for p in 0..16 {
+            idx |= (if rng.chance(1, 2) { i } else { j } as u32) << (2 * p);
+        }
+        let mut v = c0.to_le_bytes().to_vec();
+        v.extend(c1.to_le_bytes());
+        v.extend(idx.to_le_bytes());
+        v
+    };
+    let bc4 = |rng: &mut Rng| -> Vec<u8> {
+        let (e0, mut e1) = (rng.next() as u8, rng.next() as u8);
+        if rng.chance(1, 4) {
+            e1 = e0.wrapping_add(rng.range(1, 3) as u8);
+        }
+        let i = rng.below(8);
+        let mut j = rng.below(8);
+        if j == i {
+            j = (i + 1) % 8;
+        }
+        let mut idx: u64 = 0;
+        for p in 0..16 {
+            idx |= (if rng.chance(1, 2) { i } else { j }) << (3 * p);
+        }
+        let mut v = vec![e0, e1];
+        v.extend(&idx.to_le_bytes()[..6]);
+        v
+    };
+    match f {
+        F::Bc1 => color(rng, true),
+        F::Bc2 | F::Bc2p => {
+            // premultiplied: opaque witness, so that premultiplication keeps the palette colours
+            let (a, b) = if f == F::Bc2p { (15, 15) } else { (rng.below(16), rng.below(16)) };
+            let mut w: u64 = 0;
+            for p in 0..16 {
+                w |= (if rng.chance(1, 2) { a } else { b }) << (4 * p);
+            }
+            let mut v = w.to_le_bytes().to_vec();
+            v.extend(color(rng, false));
+            v
+        }
+        F::Bc3 | F::Bc3p | F::Rxgb | F::Bc3n => {
+            let mut v = if f == F::Bc3p { vec![255, 255, 0, 0, 0, 0, 0, 0] } else { bc4(rng) };
+            v.extend(color(rng, false));
+            v
+        }
+        F::Bc4u | F::Bc4s => bc4(rng),
+        F::Bc5u | F::Bc5s => {
+            let mut v = bc4(rng);
+            v.extend(bc4(rng));
+            v
+        }
+        F::Bc7 => {
+            let mut v: Vec<u8> = (0..16).map(|_| rng.next() as u8).collect();
+            let mode = 4 + rng.below(3) as u8;
+            v[0] = (v[0] & !((1u16 << (mode + 1)) - 1) as u8) | (1 << mode);
+            v
+        }
+    }
+}
+
+/// image block (16 RGBA pixels) made of two palette colours of the witness
+fn two_from_witness(f: F, wit: &[u8], rng: &mut Rng) -> Option<[[u8; 4]; 16]> {
+    let d = lib_decode(f.stored(), 1, wit).ok()?;
+    let nch = f.nch();
+    let get = |p: usize| -> [u8; 4] {
+        let v = &d[0][p * nch..(p + 1) * nch];
+        match f {
+            // the input channel feeding each decoded channel (see `checks`)
+            F::Bc4u | F::Bc4s => [v[0], v[0], v[0], 255],
+            F::Bc5u | F::Bc5s => [v[0], v[1], 0, 255],
+            F::Rxgb => [v[0], v[1], v[2], 255],
+            F::Bc3n => [v[0], v[1], 0, 255],
+            _ => [v[0], v[1], v[2], v[3]],
+        }
+    };
+    let mut out = [[0u8; 4]; 16];
+    if f == F::Bc7 {
+        let j = (1..16).find(|&p| get(p) != get(0)).unwrap_or(0);
+        for p in 0..16 {
+            out[p] = if p == 0 || rng.chance(1, 2) { get(0) } else { get(j) };
+        }
+    } else {
+        for p in 0..16 {
+            out[p] = get(p);
+        }
+        if f == F::Bc1 {
+            // transparent witness pixels are not colours; the witness generator never uses index 3 in
+            // three-colour mode, so all pixels are opaque here
+        }
+    }
+    Some(out)
+}
+
+pub fn gen(seed: u64, thorough: bool) -> Vec<String> {
+    let mut rng = Rng::new(seed ^ 0xC13);
+    let mut specs: Vec<Spec> = vec![];
+    let quals = ['F', 'N', 'H'];
+    let mets = ['U', 'P'];
+    let scale = if thorough { 100 } else { 1 };
+    let n = Opts { q: 'N', m: 'U', d: 'N' };
+
+    for &f in &ALL {
+        for &q in &quals {
+            for &m in &mets {
+                let o = Opts { q, m, d: 'N' };
+                // metric only reaches the 5:6:5 colour search; other formats get the second metric on a subset
+                let metric_matters = f.has_565();
+                let sub = if metric_matters || m == 'U' { 1 } else { 4 };
+                // A. all 256 grey levels, opaque: 4 blocks per case
+                for g0 in (0..256).step_by(4 * sub) {
+                    let img = block_row(4, |b, _| {
+                        let g = (g0 + b) as u8;
+                        [g, g, g, 255]
+                    });
+                    specs.push(Spec { class: "grey", f, o, img, wit: None });
+                }
+                // B. random single colours (random / boundary alpha)
+                for _ in 0..(6 * scale / sub).max(1) {
+                    let cols: Vec<[u8; 4]> = (0..4).map(|_| rand_color(&mut rng)).collect();
+                    let img = block_row(4, |b, _| cols[b]);
+                    specs.push(Spec { class: "rand1", f, o, img, wit: None });
+                }
+                // C. two representable colours
+                for _ in 0..(6 * scale / sub).max(1) {
+                    let mut wit = vec![];
+                    let mut blocks = vec![];
+                    for _ in 0..4 {
+                        let w = witness(f, &mut rng);
+                        if let Some(b) = two_from_witness(f, &w, &mut rng) {
+                            wit.extend(w);
+                            blocks.push(b);
+                        }
+                    }
+                    if blocks.len() == 4 {
+                        let img = block_row(4, |b, p| blocks[b][p]);
+                        specs.push(Spec { class: "two", f, o, img, wit: Some(wit) });
+                    }
+                }
+                // D. gradients and noise, 8x8
+                for k in 0..(4 * scale / sub).max(1) {
+                    let (c0, c1) = (rand_color(&mut rng), rand_color(&mut rng));
+                    let mode = k % 4;
+                    let mut px = vec![[0u8; 4]; 64];
+                    for y in 0..8usize {
+                        for x in 0..8usize {
+                            let t = match mode {
+                                0 => x * 255 / 7,
+                                1 => y * 255 / 7,
+                                2 => (x + y) * 255 / 14,
+                                _ => (x * y) * 255 / 49,
+                            } as u32;
+                            for c in 0..4 {
+                                px[y * 8 + x][c] = ((c0[c] as u32 * (255 - t) + c1[c] as u32 * t + 127) / 255) as u8;
+                            }
+                            if k % 2 == 0 {
+                                px[y * 8 + x][3] = 255;
+                            }
+                        }
+                    }
+                    specs.push(Spec { class: "grad", f, o, img: Img::from_rgba8(8, 8, &px), wit: None });
+                    let amp = *rng.pick(&[255u64, 64, 8, 2]);
+                    let base = rand_color(&mut rng);
+                    let px: Vec<[u8; 4]> = (0..64)
+                        .map(|_| {
+                            let mut p = [0u8; 4];
+                            for c in 0..4 {
+                                p[c] = (base[c] as u64 * (255 - amp) / 255 + rng.below(amp + 1)) as u8;
+                            }
+                            if k % 2 == 1 {
+                                p[3] = 255;
+                            }
+                            p
+                        })
+                        .collect();
+                    specs.push(Spec { class: "noise", f, o, img: Img::from_rgba8(8, 8, &px), wit: None });
+                }
+                // E. extreme alpha patterns over one colour / over noise
+                if m == 'U' || metric_matters {
+                    for pat in 0..8 {
+                        let col = rand_color(&mut rng);
+                        let noisy = rng.chance(1, 2);
+                        let mut r2 = Rng::new(rng.next());
+                        let img = block_row(2, |b, p| {
+                            let a = match pat {
+                                0 => 0,
+                                1 => 255,
+                                2 => [127u8, 128][(p + p / 4 + b) % 2],
+                                3 => [0u8, 255][(p + p / 4) % 2],
+                                4 => [0u8, 255][(p / 4) % 2],
+                                5 => *r2.pick(&[0u8, 1, 126, 127, 128, 129, 254, 255]),
+                                6 => if p == 5 { 0 } else { 255 },
+                                _ => if p == 10 { 255 } else { 0 },
+                            };
+                            if noisy && b == 1 {
+                                [r2.below(256) as u8, r2.below(256) as u8, r2.below(256) as u8, a]
+                            } else {
+                                [col[0], col[1], col[2], a]
+                            }
+                        });
+                        specs.push(Spec { class: "alpha", f, o, img, wit: None });
+                    }
+                }
+                // F. partial edge blocks
+                if m == 'U' || metric_matters {
+                    for &(w, h) in &[(1usize, 1usize), (5, 5), (7, 3), (9, 6), (12, 9), (2, 7), (3, 4), (6, 10)] {
+                        let mode = rng.below(3);
+                        let col = rand_color(&mut rng);
+                        let px: Vec<[u8; 4]> = (0..w * h)
+                            .map(|i| match mode {
+                                0 => col,
+                                1 => [col[0], col[1], col[2], *rng.pick(&[0u8, 127, 128, 255])],
+                                _ => {
+                                    let mut c = rand_color(&mut rng);
+                                    if i % 3 == 0 {
+                                        c[3] = 255;
+                                    }
+                                    c
+                                }
+                            })
+                            .collect();
+                        specs.push(Spec { class: "edge", f, o, img: Img::from_rgba8(w, h, &px), wit: None });
+                    }
+                }
+            }
+            // G. dithering modes (portability / opacity clauses)
+            for &d in &['C', 'A', 'B'] {
+                let o = Opts { q, m: *rng.pick(&mets), d };
+                for k in 0..(6 * scale).max(1) {
+                    let base = rand_color(&mut rng);
+                    let amp = *rng.pick(&[255u64, 32, 4]);
+                    let alpha_mode = k % 3;
+                    let (w, h) = *rng.pick(&[(8usize, 4usize), (8, 8), (5, 6), (4, 4)]);
+                    let px: Vec<[u8; 4]> = (0..w * h)
+                        .map(|_| {
+                            let mut p = [0u8; 4];
+                            for c in 0..4 {
+                                p[c] = (base[c] as u64 * (255 - amp) / 255 + rng.below(amp + 1)) as u8;
+                            }
+                            match alpha_mode {
+                                0 => p[3] = 255,
+                                1 => p[3] = *rng.pick(&[0u8, 100, 127, 128, 160, 255]),
+                                _ => {}
+                            }
+                            p
+                        })
+                        .collect();
+                    specs.push(Spec { class: "dither", f, o, img: Img::from_rgba8(w, h, &px), wit: None });
+                }
+                // single colours under dithering
+                let cols: Vec<[u8; 4]> = (0..4).map(|i| if i == 0 { [0, 0, 0, 255] } else { rand_color(&mut rng) }).collect();
+                let img = block_row(4, |b, p| if b == 3 { [cols[3][0], cols[3][1], cols[3][2], 255] } else if b == 2 { [cols[2][0], cols[2][1], cols[2][2], if p % 2 == 0 { 0 } else { 255 }] } else { cols[b] });
+                specs.push(Spec { class: "dither1", f, o, img, wit: None });
+            }
+        }
+        // K. the 8 corner colours (exactly representable 5:6:5 colours) x alpha, incl. Unreasonable
+        for &q in &['F', 'N', 'H', 'U'] {
+            for &m in &mets {
+                for &a in &[255u8, 0, 127, 128] {
+                    for half in 0..2 {
+                        let o = Opts { q, m, d: 'N' };
+                        let img = block_row(4, |b, _| {
+                            let k = half * 4 + b;
+                            [if k & 1 != 0 { 255 } else { 0 }, if k & 2 != 0 { 255 } else { 0 }, if k & 4 != 0 { 255 } else { 0 }, a]
+                        });
+                        specs.push(Spec { class: "corner", f, o, img, wit: None });
+                    }
+                }
+            }
+        }
+        // H. Unreasonable on a small subset
+        for &m in &mets {
+            if m == 'P' && !f.has_565() {
+                continue;
+            }
+            let o = Opts { q: 'U', m, d: 'N' };
+            let gs: Vec<u8> = (0..4).map(|_| rng.below(256) as u8).collect();
+            specs.push(Spec { class: "grey", f, o, img: block_row(4, |b, _| [gs[b], gs[b], gs[b], 255]), wit: None });
+            for _ in 0..scale {
+                let w = witness(f, &mut rng);
+                if let Some(b) = two_from_witness(f, &w, &mut rng) {
+                    specs.push(Spec { class: "two", f, o, img: block_row(1, |_, p| b[p]), wit: Some(w) });
+                }
+                let px: Vec<[u8; 4]> = (0..20).map(|_| rand_color(&mut rng)).collect();
+                specs.push(Spec { class: "edge", f, o, img: Img::from_rgba8(5, 4, &px), wit: None });
+            }
+        }
+        // I. other input precisions (same content as rgba8 would give)
+        for &prec in &[InPrec::Rgba16, InPrec::Rgba32, InPrec::Rgb8, InPrec::Gray8] {
+            for &q in &quals {
+                let o = Opts { q, m: 'U', d: 'N' };
+                let gs: Vec<u8> = (0..4).map(|_| rng.below(256) as u8).collect();
+                let img = block_row(4, |b, _| [gs[b], gs[b], gs[b], 255]).convert(prec);
+                specs.push(Spec { class: "prec", f, o, img, wit: None });
+                let cols: Vec<[u8; 4]> = (0..4).map(|_| rand_color(&mut rng)).collect();
+                let img = block_row(4, |b, p| if b < 2 { cols[b] } else { [cols[b][0], cols[b][1], cols[b][2], [127u8, 128, 0, 255][p % 4]] }).convert(prec);
+                specs.push(Spec { class: "prec", f, o, img, wit: None });
+            }
+        }
+    }
+    // J. BC1 alpha threshold at exactly one half (f32 input): which side is 0.5?
+    for &q in &quals {
+        for &(bits, _) in &[(0x3F00_0000u32, "0.5"), (0x3EFF_FFFF, "pred(0.5)"), (0x3F00_0001, "succ(0.5)"), (0x3EFF_0000, "0.498")] {
+            let mut data = vec![];
+            for p in 0..16 {
+                for c in 0..4 {
+                    let v: f32 = if c == 3 {
+                        if p % 2 == 0 { f32::from_bits(bits) } else { 1.0 }
+                    } else {
+                        [0.25f32, 0.5, 0.75][c]
+                    };
+                    data.extend(v.to_le_bytes());
+                }
+            }
+            specs.push(Spec { class: "half", f: F::Bc1, o: Opts { q, ..n }, img: Img { w: 4, h: 4, prec: InPrec::Rgba32, data }, wit: None });
+        }
+    }
+    let _ = n;
+    specs.par_iter().map(line_of).collect()
 }
